@@ -48,6 +48,9 @@ type c15Spec struct {
 	// microtasks while it is offline, is started again while they run, and they finish in
 	// its next life (M3/M4 across lives), see restartCheck.
 	Restart bool `json:"restart,omitempty"`
+	// SetProcs > 0: the child calls runtime.GOMAXPROCS(SetProcs) first of all - before it
+	// configures the microtask limit and before modules.Start()
+	SetProcs int `json:"set_procs,omitempty"`
 }
 
 type c15Hist struct {
@@ -69,6 +72,7 @@ type c15Task struct {
 	DoneConc   bool   `json:"done_conc,omitempty"`
 	MaxDelayMs int    `json:"maxdelay_ms"`
 	Hold       bool   `json:"hold,omitempty"`       // saturation phase: stays until `limit` such tasks run at the same time
+	PanicKind  string `json:"panic_kind,omitempty"` // what a panicking function panics with: "" (a string) | nil-pointer-error | panicking-error | panicking-stringer
 	NilMod     bool   `json:"nil_module,omitempty"` // the call is made on a nil *modules.Module: refused, function not run, accounting untouched
 	Phase      int    `json:"phase,omitempty"`      // overflow classes: 1 = slot holder (gated), 2 = fills the clearance queue, 3 = submitted while the queue is full
 }
@@ -105,6 +109,11 @@ func c15Cases(cfg vlib.Cfg) []*c15Spec {
 				if t.Variant != "sig" {
 					t.Panic = r.Intn(1000) < panicPm
 					t.Err = !t.Panic && r.Chance(1, 5)
+					if t.Panic && t.Variant == "run" && r.Chance(1, 2) {
+						// panic values whose own Error()/String() method panics (only on the
+						// blocking variants: an escaping panic can be contained per call there)
+						t.PanicKind = vlib.Pick(r, "nil-pointer-error", "panicking-error", "panicking-stringer")
+					}
 				} else {
 					t.DoneCalls = r.Range(1, 3)
 					t.DoneConc = r.Bool()
@@ -155,6 +164,9 @@ func c15Cases(cfg vlib.Cfg) []*c15Spec {
 			}
 			sp.Hists = append(sp.Hists, ls)
 			c15Renumber(sp)
+		}
+		if sp.GoMaxProcs == 0 && i%3 == 0 {
+			sp.SetProcs = []int{3, 24, 6, 40}[(i/3)%4] // below and above the value at package init
 		}
 		sp.ParkCheck = sp.GoMaxProcs == 0 && i%4 == 1
 		sp.Restart = sp.GoMaxProcs == 0 && i%8 == 6
@@ -241,6 +253,7 @@ type probeSample struct {
 }
 
 type c15H struct {
+	dir  string
 	sp   *c15Spec
 	b    *vlib.Batch
 	mods []*modules.Module
@@ -279,6 +292,30 @@ type c15H struct {
 
 var errC15 = errors.New("harness microtask error")
 
+// panic values whose own methods panic when they are asked for a message
+type panickingError struct{ id int }
+
+func (e panickingError) Error() string { panic(fmt.Sprintf("Error() of panic value %d panics", e.id)) }
+
+type panickingStringer struct{ id int }
+
+func (e panickingStringer) String() string {
+	panic(fmt.Sprintf("String() of panic value %d panics", e.id))
+}
+
+func panicValueOf(t *c15Task) any {
+	switch t.PanicKind {
+	case "nil-pointer-error":
+		var e error = (*os.PathError)(nil) // Error() dereferences the nil receiver
+		return e
+	case "panicking-error":
+		return panickingError{t.ID}
+	case "panicking-stringer":
+		return panickingStringer{t.ID}
+	}
+	return fmt.Sprintf("harness panic %d", t.ID)
+}
+
 func (h *c15H) rec(kind, cls string, id int) {
 	h.emu.Lock()
 	h.seq++
@@ -292,7 +329,7 @@ func c15Child(dir string, raw []byte) {
 		fmt.Println("bad spec:", err)
 		os.Exit(3)
 	}
-	h := &c15H{sp: &sp, b: vlib.NewBatch(), prepGate: make(chan struct{})}
+	h := &c15H{dir: dir, sp: &sp, b: vlib.NewBatch(), prepGate: make(chan struct{})}
 	total := 0
 	for _, hs := range sp.Hists {
 		total += len(hs.Tasks)
@@ -340,6 +377,9 @@ func c15Child(dir string, raw []byte) {
 		}
 	})
 
+	if sp.SetProcs > 0 {
+		runtime.GOMAXPROCS(sp.SetProcs)
+	}
 	modules.VerifSetStopTimeout(8 * time.Second)
 	modules.SetStdErrReporting(false)
 	for i := 0; i < sp.Mods; i++ {
@@ -369,7 +409,12 @@ func c15Child(dir string, raw []byte) {
 	close(h.prepGate)
 	h.prepWg.Wait()
 	if st := modules.GetStatus(); st == nil || st.Config.MicroTasksThreshhold != sp.Limit {
-		h.b.Violation("C15:limit-not-configured", fmt.Sprintf("SetMaxConcurrentMicroTasks(%d) but GetStatus reports a different threshold", sp.Limit), map[string]any{"spec_limit": sp.Limit})
+		got := -1
+		if st != nil {
+			got = st.Config.MicroTasksThreshhold
+		}
+		h.b.Violation("C15:limit-not-configured", fmt.Sprintf("SetMaxConcurrentMicroTasks(%d) was called before modules.Start(), after Start GetStatus reports a limit of %d (GOMAXPROCS set to %d before)", sp.Limit, got, sp.SetProcs),
+			map[string]any{"spec_limit": sp.Limit, "reported": got, "set_procs": sp.SetProcs})
 	}
 	ok := h.judgePreStart()
 	if ok {
@@ -384,6 +429,9 @@ func c15Child(dir string, raw []byte) {
 			ok = false
 			break
 		}
+	}
+	if ok {
+		ok = h.repeatedPanicCheck(dir)
 	}
 	if ok && sp.Restart {
 		ok = h.restartCheck()
@@ -739,6 +787,13 @@ func (h *c15H) nilModuleCall(t *c15Task, md time.Duration) {
 	}
 }
 
+func orStr(s, d string) string {
+	if s == "" {
+		return d
+	}
+	return s
+}
+
 func cnt(n int32) string {
 	switch {
 	case n == 0:
@@ -846,13 +901,27 @@ func (h *c15H) runHist(hi int, hist *c15Hist) bool {
 			h.execs[t.ID].Add(1)
 			body(t)
 			if t.Panic {
-				panic(fmt.Sprintf("harness panic %d", t.ID))
+				panic(panicValueOf(t))
 			}
 			if t.Err {
 				return errC15
 			}
 			return nil
 		}
+	}
+	var escaped atomic.Int32
+	// contained runs a blocking call; a panic that escapes portbase's recovery is a
+	// violation of its own and must not take the child down (the counts are checked after)
+	contained := func(t *c15Task, call func() error) (err error) {
+		defer func() {
+			if r := recover(); r != nil {
+				escaped.Add(1)
+				h.b.Violation("C15:M2:panic-escaped:"+t.Variant+"-"+t.Prio+":"+orStr(t.PanicKind, "string"), fmt.Sprintf("the panic of a microtask function escaped from %s*MicroTask instead of being returned as an error (recovered by the harness: %v)", "Run", r),
+					map[string]any{"task": t, "spec": h.specNoTasks(), "history": hi})
+				err = errors.New("escaped panic")
+			}
+		}()
+		return call()
 	}
 	submit := func(t *c15Task) {
 		md := time.Duration(t.MaxDelayMs) * time.Millisecond
@@ -871,11 +940,11 @@ func (h *c15H) runHist(hi int, hist *c15Hist) bool {
 			var err error
 			switch t.Prio {
 			case "high":
-				err = m.RunHighPriorityMicroTask("t", fnOf(t))
+				err = contained(t, func() error { return m.RunHighPriorityMicroTask("t", fnOf(t)) })
 			case "med":
-				err = m.RunMicroTask("t", md, fnOf(t))
+				err = contained(t, func() error { return m.RunMicroTask("t", md, fnOf(t)) })
 			default:
-				err = m.RunLowPriorityMicroTask("t", md, fnOf(t))
+				err = contained(t, func() error { return m.RunLowPriorityMicroTask("t", md, fnOf(t)) })
 			}
 			rmu.Lock()
 			rets = append(rets, retRec{t, err})
@@ -1018,9 +1087,49 @@ func (h *c15H) runHist(hi int, hist *c15Hist) bool {
 	}
 	fin := make(chan struct{})
 	go func() { swg.Wait(); wg.Wait(); close(fin) }()
-	select {
-	case <-fin:
-	case <-time.After(100 * time.Second):
+	progress := func() int64 {
+		h.emu.Lock()
+		n := int64(h.seq)
+		h.emu.Unlock()
+		return n + h.concluded.Load() + h.granted.Load()
+	}
+	last, lastT, t0 := progress(), time.Now(), time.Now()
+	lastDL := time.Now()
+waitFin:
+	for {
+		select {
+		case <-fin:
+			break waitFin
+		case <-time.After(100 * time.Millisecond):
+		}
+		if escaped.Load() > 0 && time.Since(lastT) > 300*time.Millisecond {
+			return false // a slot is lost with the escaped panic, the rest may never be admitted; the violation is recorded
+		}
+		if p := progress(); p != last {
+			last, lastT = p, time.Now()
+		}
+		if time.Since(lastT) > 2*time.Second && time.Since(lastDL) > 2*time.Second {
+			lastDL = time.Now()
+			if reportDeadlocked() {
+				h.b.Violation("C15:M2:run-never-returned:blocked-in:(*ModuleError).Report", fmt.Sprintf("a panicking microtask function has returned but its microtask is never concluded: runMicroTask's recovery handler is blocked acquiring the reporting lock in modules.(*ModuleError).Report and no goroutine holds it (global count %d)", modules.VerifMicroTasks()),
+					map[string]any{"spec": h.specNoTasks(), "history": hi, "counts": h.counts()})
+				h.b.Finish(h.dir)
+				os.Exit(0)
+			}
+		}
+		if time.Since(lastT) > 15*time.Second {
+			// nothing has moved for 15 s: look for a microtask wedged in portbase's recovery path
+			if where := stuckInRecovery(); where != "" {
+				h.b.Violation("C15:M2:run-never-returned:blocked-in:"+where, fmt.Sprintf("a panicking microtask function has returned but its microtask was never concluded: 15 s without any progress in the history, a goroutine is blocked in modules.%s below runMicroTask's recovery handler (global count %d)", where, modules.VerifMicroTasks()),
+					map[string]any{"spec": h.specNoTasks(), "history": hi, "blocked_in": where, "counts": h.counts()})
+				h.b.Finish(h.dir)
+				os.Exit(0)
+			}
+			lastT = time.Now()
+		}
+		if time.Since(t0) < 100*time.Second {
+			continue
+		}
 		missing := 0
 		for _, t := range hist.Tasks {
 			if h.execs[t.ID].Load() == 0 {
@@ -1055,13 +1164,18 @@ func (h *c15H) runHist(hi int, hist *c15Hist) bool {
 	for _, r := range rets {
 		t := r.t
 		switch {
+		case r.err != nil && r.err.Error() == "escaped panic":
+			// already reported
 		case t.Panic:
 			if isP, me := modules.IsPanic(r.err); !isP {
 				h.b.Violation("C15:M2:panic-not-returned:"+t.Prio, fmt.Sprintf("Run* of a panicking function returned %v instead of a panic error", r.err), map[string]any{"task": t})
-			} else if me.PanicValue != fmt.Sprintf("harness panic %d", t.ID) {
+			} else if me.PanicValue != panicValueOf(t) {
 				h.b.Violation("C15:M2:wrong-panic-value:"+t.Prio, "Run* returned the panic of another function", map[string]any{"task": t, "got": fmt.Sprint(me.PanicValue)})
 			}
 			h.b.Count("run_panics_checked", 1)
+			if t.PanicKind != "" {
+				h.b.Count("run_panics_with_panicking_value_checked", 1)
+			}
 		case t.Err:
 			if r.err != errC15 { //nolint:errorlint // identity is what is demanded
 				h.b.Violation("C15:M2:error-not-returned:"+t.Prio, fmt.Sprintf("Run* returned %v instead of the function's error", r.err), map[string]any{"task": t})
@@ -1072,6 +1186,10 @@ func (h *c15H) runHist(hi int, hist *c15Hist) bool {
 				h.b.Violation("C15:M2:spurious-error:"+t.Prio, fmt.Sprintf("Run* returned %v although the function returned nil", r.err), map[string]any{"task": t})
 			}
 		}
+	}
+
+	if escaped.Load() > 0 {
+		return false // the conclusion of that microtask never comes; the violation is recorded
 	}
 
 	// ---- M1: concurrency bound (sweep over the begin/end log)
@@ -1276,11 +1394,77 @@ func (h *c15H) fence(hi int, hist *c15Hist) bool {
 	return true
 }
 
+// stuckInRecovery looks for a goroutine that is inside the deferred recovery handler of
+// runMicroTask and blocked there; it returns the innermost portbase/modules function of
+// that goroutine ("" if there is none). Structural part of the "never returned" verdicts.
+func stuckInRecovery() string {
+	buf := make([]byte, 4<<20)
+	buf = buf[:runtime.Stack(buf, true)]
+	for _, g := range strings.Split(string(buf), "\n\n") {
+		if !strings.Contains(g, "modules.(*Module).runMicroTask.func1") {
+			continue
+		}
+		hdr := g
+		if i := strings.Index(g, "\n"); i > 0 {
+			hdr = g[:i]
+		}
+		if !(strings.Contains(hdr, "semacquire") || strings.Contains(hdr, "sync.Mutex.Lock") || strings.Contains(hdr, "chan ") || strings.Contains(hdr, "select")) {
+			continue
+		}
+		for _, ln := range strings.Split(g, "\n") {
+			if strings.HasPrefix(ln, "github.com/safing/portbase/modules.") {
+				if i := strings.LastIndex(ln, "("); i > 0 {
+					ln = ln[:i]
+				}
+				return strings.TrimPrefix(ln, "github.com/safing/portbase/modules.")
+			}
+		}
+	}
+	return ""
+}
+
+// reportDeadlocked: at least one goroutine is blocked acquiring a mutex inside
+// (*ModuleError).Report and no goroutine is anywhere else inside a function that holds
+// that lock: the lock is held by nobody who could release it. This is a deadlock proven
+// from the goroutine dump, not a time-out.
+func reportDeadlocked() bool {
+	buf := make([]byte, 4<<20)
+	buf = buf[:runtime.Stack(buf, true)]
+	waiting := 0
+	for _, g := range strings.Split(string(buf), "\n\n") {
+		in := strings.Contains(g, "modules.(*ModuleError).Report") || strings.Contains(g, "modules.SetErrorReportingChannel") || strings.Contains(g, "modules.GetLastReportedError")
+		if !in {
+			continue
+		}
+		hdr := g
+		if i := strings.Index(g, "\n"); i > 0 {
+			hdr = g[:i]
+		}
+		lines := strings.Split(g, "\n")
+		blockedInLock := strings.Contains(hdr, "sync.Mutex.Lock") && len(lines) > 1 && strings.HasPrefix(lines[1], "sync.")
+		// the innermost non-runtime/sync frame must be Report itself
+		inner := ""
+		for _, ln := range lines[1:] {
+			if strings.HasPrefix(ln, "\t") || strings.HasPrefix(ln, "sync.") || strings.HasPrefix(ln, "runtime.") || strings.HasPrefix(ln, "internal/") {
+				continue
+			}
+			inner = ln
+			break
+		}
+		if blockedInLock && strings.Contains(inner, "modules.(*ModuleError).Report") {
+			waiting++
+			continue
+		}
+		return false // somebody is inside the locked region and may release the lock
+	}
+	return waiting > 0
+}
+
 // settle waits until every clearance request the harness knows of was answered and every
 // microtask concluded. When the conclusions are complete but answers are missing for two
 // seconds, unclearedCheck looks for microtasks that ran without a clearance.
 func (h *c15H) settle(where string) bool {
-	checked := false
+	checked, stuckChecked := false, false
 	t0 := time.Now()
 	for h.granted.Load() != h.submitted.Load() || h.concluded.Load() != h.expConcl.Load() {
 		if c, e := h.concluded.Load(), h.expConcl.Load(); c > e {
@@ -1296,6 +1480,15 @@ func (h *c15H) settle(where string) bool {
 			checked = true
 			if !h.unclearedCheck(where) {
 				return false
+			}
+		}
+		if time.Since(t0) > 15*time.Second && h.concluded.Load() < h.expConcl.Load() && !stuckChecked {
+			stuckChecked = true
+			if where := stuckInRecovery(); where != "" {
+				h.b.Violation("C15:M2:run-never-returned:blocked-in:"+where, fmt.Sprintf("a microtask was never concluded: 15 s after everything else had finished a goroutine is still blocked in modules.%s below runMicroTask's recovery handler (global count %d)", where, modules.VerifMicroTasks()),
+					map[string]any{"spec": h.specNoTasks(), "where": where, "counts": h.counts()})
+				h.b.Finish(h.dir)
+				os.Exit(0)
 			}
 		}
 		if time.Since(t0) > 60*time.Second {
@@ -1461,6 +1654,79 @@ func (h *c15H) probe(hi int) (probeSample, bool) {
 	}
 	smp.recheckBetween = rcAtBegin != rc0
 	return smp, true
+}
+
+// repeatedPanicCheck: the same named microtask panics with the same value twice in a row,
+// then another one panics. Each Run* call has to return the panic as an error. A call
+// that does not return is judged structurally: 15 s after its function has panicked, with
+// nothing else running in the child, the goroutine dump must show the calling goroutine
+// blocked inside portbase (it is the call path of the recovery handler that is reported);
+// otherwise the case is inconclusive.
+func (h *c15H) repeatedPanicCheck(dir string) bool {
+	m := h.mods[0]
+	big := c15BigDelayMs * time.Millisecond
+	for i, val := range []string{"harness repeated panic", "harness repeated panic", "harness other panic"} {
+		val := val
+		res := make(chan error, 1)
+		h.submitted.Add(1)
+		h.expConcl.Add(1)
+		go func() {
+			defer func() {
+				if r := recover(); r != nil {
+					res <- fmt.Errorf("escaped: %v", r)
+				}
+			}()
+			res <- m.RunMicroTask("repeated", big, func(context.Context) error { panic(val) })
+		}()
+		select {
+		case err := <-res:
+			if isP, me := modules.IsPanic(err); !isP || me.PanicValue != val {
+				h.b.Violation("C15:M2:panic-not-returned:repeated", fmt.Sprintf("Run* of a function that panics with the same value as the previous run of the same name returned %v", err), map[string]any{"spec": h.specNoTasks(), "round": i})
+				return false
+			}
+		case <-func() <-chan time.Time {
+			// a deadlock proven from the goroutine dump ends the wait early
+			c := make(chan time.Time, 1)
+			go func() {
+				for t0 := time.Now(); time.Since(t0) < 15*time.Second; {
+					time.Sleep(300 * time.Millisecond)
+					if len(res) > 0 {
+						return
+					}
+					if time.Since(t0) > time.Second && reportDeadlocked() {
+						break
+					}
+				}
+				c <- time.Now()
+			}()
+			return c
+		}():
+			buf := make([]byte, 1<<20)
+			buf = buf[:runtime.Stack(buf, true)]
+			where := ""
+			for _, g := range strings.Split(string(buf), "\n\n") {
+				if strings.Contains(g, "repeatedPanicCheck") && strings.Contains(g, "safing/portbase/modules.") {
+					for _, ln := range strings.Split(g, "\n") {
+						if strings.HasPrefix(ln, "github.com/safing/portbase/modules.") {
+							where = strings.TrimPrefix(ln[:strings.LastIndex(ln, "(")], "github.com/safing/portbase/modules.")
+							break
+						}
+					}
+				}
+			}
+			if where == "" {
+				h.b.Inconclusive("case %d: repeated-panic check: Run* did not return within 15s, no portbase frame found on its goroutine", h.sp.Case)
+			} else {
+				h.b.Violation("C15:M2:run-never-returned:blocked-in:"+where, fmt.Sprintf("Run*MicroTask of a panicking function (round %d: same name and panic value as the run before) has not returned after the function panicked, with nothing else running; its goroutine is blocked in modules.%s and nothing can unblock it; the microtask stays counted (global %d)", i, where, modules.VerifMicroTasks()),
+					map[string]any{"spec": h.specNoTasks(), "round": i, "blocked_in": where, "counts": h.counts()})
+			}
+			// every later report would block as well (Shutdown's included): end the child here
+			h.b.Finish(dir)
+			os.Exit(0)
+		}
+	}
+	h.b.Count("repeated_panic_checks", 1)
+	return true
 }
 
 // parkCheck (M4, "later microtasks are admitted immediately" for the interleaving in which
@@ -1735,6 +2001,8 @@ func c15Parent(cfg vlib.Cfg) {
 		rep.Floor(rep.Counter("run_errors_checked") > 0 && rep.Counter("run_panics_checked") > 0, "no error/panic hand-back checked")
 		rep.Floor(rep.Counter("park_check_rounds") >= int64(cfg.N(40, 1000)), "only %d park-check rounds", rep.Counter("park_check_rounds"))
 		rep.Floor(rep.Counter("restart_checks") >= int64(cfg.N(10, 300)), "only %d restart checks", rep.Counter("restart_checks"))
+		rep.Floor(rep.Counter("repeated_panic_checks") >= int64(cfg.N(100, 3000)), "only %d repeated-panic checks", rep.Counter("repeated_panic_checks"))
+		rep.Floor(rep.Counter("run_panics_with_panicking_value_checked") > 0, "no panic value with a panicking Error()/String() method driven")
 		rep.Floor(rep.Counter("run_errors_checked_at_module_stop") >= int64(cfg.N(30, 1000)), "only %d Run* errors checked at a module stop", rep.Counter("run_errors_checked_at_module_stop"))
 		rep.Floor(rep.Counter("microtasks_running_across_a_module_start") >= int64(cfg.N(400, 10000)), "only %d microtasks running across a module start", rep.Counter("microtasks_running_across_a_module_start"))
 		rep.Floor(rep.Counter("after_shutdown_accounting_checks") >= int64(cfg.N(100, 3000)), "only %d after-shutdown accounting checks", rep.Counter("after_shutdown_accounting_checks"))
